@@ -1471,6 +1471,13 @@ impl<'a, H: HB> Explorer<'a, H> {
                                         break;
                                     }
                                     Ok(ap) => {
+                                        if cfg.record_costs {
+                                            // C05, small scope: the concrete transition that exceeds its bound is the case
+                                            if let Some(e) = crate::cost::small_scope_violation(op_name(op), double, m.len(), ap.cmps) {
+                                                self.report(self.case(node, Some(op), Some("cost-small-scope".into()), e));
+                                                break;
+                                            }
+                                        }
                                         self.note_transition(op, double, m.len(), &ap, &mut local);
                                         let key = encode_key(ap.q.double(), ap.unordered, &ap.snap);
                                         local.graph_fp = local.graph_fp.wrapping_add(hash64(&(&parent_key, op, format!("{:?}", ap.ret), &key)));
